@@ -26,7 +26,7 @@ import uuid
 
 from mc import pattern
 from mc.models import DATA, HOLE, ZERO, GuestDisk
-from mc.vfile import Image
+from mc.vfile import Image, entries, entries1, slot_range
 
 MB = 1 << 20
 KB64 = 64 * 1024
@@ -163,7 +163,7 @@ def build(states, slots, block_size=MB, sector=512, size=None, layer=1, seqs=(7,
     # BAT
     bat = {}
     used = {}
-    for i, (st, p) in enumerate(zip(states, slots)):
+    for i, st, p in entries(states, slots):
         blk = window_at + i
         if st == DATA or st == PARTIAL:
             mb = base_mb + p * stride_mb
@@ -191,7 +191,7 @@ def build(states, slots, block_size=MB, sector=512, size=None, layer=1, seqs=(7,
     img.put(bat_mb * MB + lo, bytes(raw[lo:hi]))
     img.meta_bytes += nbat * 8 - (hi - lo)
     # payload
-    for p in range(nslots + 1):
+    for p in slot_range(0, nslots + 1, used):
         off = (base_mb + p * stride_mb) * MB
         if p in used:
             blk = used[p]
@@ -280,9 +280,9 @@ def model(states, block_size=MB, sector=512, size=None, layer=1, parent=None, bi
           window_at=0):
     W = len(states)
     nblocks = total_blocks or (window_at + W)
-    units = [HOLE] * nblocks
+    units = [HOLE] * nblocks if nblocks <= 200000 else {}
     smap = {}
-    for i, st in enumerate(states):
+    for i, st in entries1(states):
         blk = window_at + i
         if st == PARTIAL:
             units[blk] = DATA
@@ -353,7 +353,7 @@ def selfvalidate():
         d = decode(f.peek_at)
         assert d["size"] == 3 * MB - 512 and d["block_size"] == MB and d["sector"] == 512 and not d["has_parent"]
         assert d["headers"] == [(3, True), (9, True)]
-        for i, (st, p) in enumerate(zip(states, slots)):
+        for i, st, p in entries(states, slots):
             s, off = decode_block(f.peek_at, d, i)
             if st == DATA:
                 assert s == 6 and f.peek_at(off + 4096, 512) == pattern.span(1, i * MB + 4096, 512)
